@@ -13,14 +13,14 @@ from ..models import msmref as mr
 from ..models import tptref as tr
 
 ID = 'C08'
-RULE = ('reversible chains from all connected symmetric integer matrices: n=3 over {0,1,2} (729 candidates), n=4 over {0,1} '
+RULE = ('reversible chains from all connected symmetric integer matrices: n=3 over {0,1,2} (729 candidates), n=4 over {0,1} and (sampled) over {0,1,1e-5} - rare routes with fluxes down to 1e-12 - '
         '(T: {0,1,2} every 3rd) x all disjoint non-empty (sources,sinks) x populations {given, computed} x containers '
         '{ndarray (C, Fortran-ordered, transposed view, strided view), csr,csc,coo,lil} (non-C containers on every 2nd chain in Q); state=(X,A,B,pops,container); non-trivial = >=1 '
         'intermediate state carrying non-zero reactive density')
-ASSUMPTIONS = ['tolerance 1e-12 on flux identities (products of O(1) numbers), 1e-9 where committors enter',
+ASSUMPTIONS = ['flux identities are compared entrywise at 1e-6 relative + 1e-14 absolute (round-off level of the committor solve; not a fraction of the largest flux)',
                'the probability-vector clause for reactive populations is asserted only when sum(pi q+ q-) > 0; '
                'when every committor is 0 or 1 the reactive density is identically zero and the quantity is undefined (0/0)']
-GUARDS = {'intermediate_flux': 500, 'undefined_density': 100, 'sparse': 500, 'dense_layouts': 200, 'pops_computed': 500, 'multi': 500}
+GUARDS = {'wide_range_weights': 100, 'intermediate_flux': 500, 'undefined_density': 100, 'sparse': 500, 'dense_layouts': 200, 'pops_computed': 500, 'multi': 500}
 NSH = {'quick': 48, 'thorough': 192}
 CONTAINERS = ('ndarray', 'ndarrayF', 'ndarrayT', 'ndarrayS', 'csr', 'csc', 'coo', 'lil')
 
@@ -28,7 +28,7 @@ CONTAINERS = ('ndarray', 'ndarrayF', 'ndarrayT', 'ndarrayS', 'csr', 'csc', 'coo'
 def sym_matrices(n, values):
     iu = [(i, j) for i in range(n) for j in range(i, n)]
     for t in itertools.product(values, repeat=len(iu)):
-        X = np.zeros((n, n), dtype=int)
+        X = np.zeros((n, n), dtype=(float if any(isinstance(v, float) for v in values) else int))
         for (i, j), v in zip(iu, t):
             X[i, j] = X[j, i] = v
         yield X
@@ -39,6 +39,13 @@ def chains(tier):
     for X in sym_matrices(3, (0, 1, 2)):
         if mr.strongly_connected(X):
             out.append(X)
+    # weights spanning many orders of magnitude: rare side routes carry fluxes of 1e-9 .. 1e-12
+    k = 0
+    for X in sym_matrices(4, (0, 1, 1e-5)):
+        if mr.strongly_connected(X) and (X == 1e-5).any() and (X == 1).any():
+            k += 1
+            if k % (193 if tier == 'quick' else 5) == 0:
+                out.append(X)
     k = 0
     vals = (0, 1) if tier == 'quick' else (0, 1, 2)
     for X in sym_matrices(4, vals):
@@ -67,11 +74,20 @@ def wrap(T, cont):
     return getattr(sp, cont + '_matrix')(T)
 
 
+def close(got, want, net=False):
+    """entrywise: |got-want| <= 1e-6*|want| + 1e-14.  The absolute term is the round-off level of the committor solve
+    (q in [0,1], pi_i T_ij <= 1), NOT a fraction of the largest flux: a rare route carrying 1e-11 next to a main route
+    carrying 1e-2 must not be lost, while a 1e-17 residue on an edge whose exact flux is 0 is not a violation."""
+    return bool((np.abs(got - want) <= 1e-6 * np.abs(want) + 1e-14).all())
+
+
 def check_case(case, ctx, pairs=None):
     from enspara import tpt
     X = np.array(case['X'], float)
     cont = case['container']
     n = len(X)
+    if X.max() > 0 and X[X > 0].min() < 1e-3:
+        ctx.guard('wide_range_weights')
     T = X / X.sum(axis=1, keepdims=True)
     pi = X.sum(axis=1) / X.sum()
     M = wrap(T, cont)
@@ -99,7 +115,7 @@ def check_case(case, ctx, pairs=None):
             np.fill_diagonal(want, 0.0)
             try:
                 f = mr.to_dense(tpt.reactive_fluxes(M, A, B, populations=pops)).astype(float)
-                if f.shape != (n, n) or np.abs(f - want).max() > 1e-9:
+                if f.shape != (n, n) or not close(f, want):
                     ctx.violation('reactive_fluxes:definition:%s' % ctag, c, 'flux %r want %r (%r)' % (f.tolist(), want.tolist(), c))
             except Exception as e:
                 ctx.violation('reactive_fluxes:raises:%s:%s' % (ctag, type(e).__name__), c, 'raised %r on %r' % (e, c))
@@ -107,29 +123,31 @@ def check_case(case, ctx, pairs=None):
             wnet = np.maximum(want - want.T, 0)
             try:
                 g = mr.to_dense(tpt.net_fluxes(M, A, B, populations=pops)).astype(float)
-                if g.shape != (n, n) or np.abs(g - wnet).max() > 1e-9:
+                if g.shape != (n, n) or not close(g, wnet, net=True):
                     ctx.violation('net_fluxes:definition:%s' % ctag, c, 'net %r want %r (%r)' % (g.tolist(), wnet.tolist(), c))
                 else:
-                    if (g < 0).any() or (g * g.T > 1e-18).any():
+                    if (g < 0).any() or ((g > 1e-14) & (g.T > 1e-14)).any():
                         ctx.violation('net_fluxes:both_directions', c, 'net flux in both directions of a pair: %r' % g.tolist())
                     for i in inter:
-                        if abs(g[:, i].sum() - g[i].sum()) > 1e-9:
+                        if abs(g[:, i].sum() - g[i].sum()) > 1e-6 * max(g[:, i].sum(), g[i].sum()) + 1e-14:
                             ctx.violation('net_fluxes:kirchhoff', c, 'state %d: in %g out %g (%r)' % (i, g[:, i].sum(), g[i].sum(), c))
                             break
                     if inter and g[inter].sum() > 1e-12:
                         ctx.guard('intermediate_flux')
-                    if np.abs(g[:, A]).max() > 1e-9 or np.abs(g[B]).max() > 1e-9:
+                    if np.abs(g[:, A]).max() > 1e-14 or np.abs(g[B]).max() > 1e-14:
                         ctx.violation('net_fluxes:boundary', c, 'flux into sources or out of sinks: %r' % g.tolist())
-                    if abs(g[A].sum() - g[:, B].sum()) > 1e-9:
+                    if abs(g[A].sum() - g[:, B].sum()) > 1e-6 * g[A].sum() + 1e-14:
                         ctx.violation('net_fluxes:total', c, 'outflow(A) %g != inflow(B) %g' % (g[A].sum(), g[:, B].sum()))
             except Exception as e:
                 ctx.violation('net_fluxes:raises:%s:%s' % (ctag, type(e).__name__), c, 'raised %r on %r' % (e, c))
             # --- reactive populations
             try:
                 rp = np.asarray(tpt.reactive_populations(M, A, B, populations=pops)).astype(float).ravel()
-                if dens.sum() > 1e-12:
+                if dens.sum() > 1e-13:
                     wantp = dens / dens.sum()
-                    if rp.shape != (n,) or np.abs(rp - wantp).max() > 1e-9 or rp.min() < -1e-12 or abs(rp.sum() - 1) > 1e-9 \
+                    # the normalisation divides by sum(pi q+ q-): round-off of the committors (1e-16) is amplified by 1/sum
+                    ptol = 1e-9 + 1e-14 / dens.sum()
+                    if rp.shape != (n,) or np.abs(rp - wantp).max() > ptol or rp.min() < -1e-12 or abs(rp.sum() - 1) > 1e-9 \
                             or np.abs(rp[A + B]).max() > 1e-9:
                         ctx.violation('reactive_populations:value:%s' % ctag, c, 'got %r want %r (%r)' % (rp.tolist(), wantp.tolist(), c))
                 else:
